@@ -572,8 +572,10 @@ def minimize_lbfgsb(
                 # Reboot BFGS-Hessian
                 mats = LBFGSB_MATRICES(n)
         else:
-            # x update
-            x += steplength * d
+            # x update: rounding may push x + steplength * d out of the bounds by one
+            # ulp, hence the projection (this is also the point evaluated last by the
+            # line search)
+            x = np.clip(x + steplength * d, lb, ub)
 
             # new evaluation -> normally, the function has been updated in
             # the linesearch step
